@@ -142,6 +142,7 @@ def gen_vs(r, idx, tier):
             key = r.choice(["reg", "env", "host_1", "zz"]) if r.random() < 0.8 else r.choice(GOODL)
             own = labels + [p[0] for p in ocon]
             if own and r.random() < 0.2: key = r.choice(own)       # clashes with one of the metric's own labels: register refuses
+            if key == "le": continue        # Registry::new_custom refuses the reserved name (the harness needs a registry that exists)
             if key in [p[0] for p in rlabels]: continue
             rlabels.append((key, gens.label_value(r)))
     return dict(name=name, help=help_, ns=ns, sub=sub, ocon=ocon, maps=maps, cl=cl, lp=lp, labels=labels, vals=vals, buckets=buckets,
